@@ -15,6 +15,7 @@ package core
 // lease and every stored lease is tracked by the expiration manager.
 
 import (
+	"context"
 	"github.com/openbao/openbao/v2/internal/helper/namespace"
 	"sync"
 	"encoding/json"
@@ -253,6 +254,61 @@ func trackingInvariantOpt(s *Sys, checkIndex bool) string {
 	return ""
 }
 
+// c06PartX: the client goes away (its request context is cancelled) while the backend is
+// generating the leased secret. Whatever happens next, the two outcomes of the statement
+// are the only ones: the client holds the secret and a lease + index exist, or the client
+// got an error, the fresh secret was revoked at its backend and no lease / index remain.
+func c06PartX(t *testing.T, res *vout.Result, img *Image, tok string) {
+	for _, who := range []string{"service", "batch"} {
+		s := Boot(t, img)
+		idsB, idxB := expireKeys(s)
+		issuedB := len(s.Rec.IssuedIDs())
+		ctx, cancel := context.WithCancel(rootCtx())
+		s.Rec.mu.Lock()
+		s.Rec.OnLease = func(hctx context.Context) {
+			cancel()
+			// the core hands the backend a context derived from the client's; the cancellation
+			// reaches it through a goroutine (the wait only bounds the harness's patience)
+			for t0 := time.Now(); hctx.Err() == nil && time.Since(t0) < 5*time.Second; {
+				time.Sleep(100 * time.Microsecond)
+			}
+		}
+		s.Rec.mu.Unlock()
+		req := &logical.Request{ClientToken: tok, Operation: logical.ReadOperation, Path: "rec/lease/x", Connection: &logical.Connection{RemoteAddr: "127.0.0.1"}}
+		if who == "batch" {
+			req.ClientToken = c06Batch[s.Opt.NonTxn]
+		}
+		resp, err := s.Core.HandleRequest(ctx, req)
+		cancel()
+		s.settle()
+		ok := OK(resp, err) && resp != nil && resp.Secret != nil
+		res.Add("executions", 1)
+		res.Add("cancel_runs", 1)
+		idsA, idxA := expireKeys(s)
+		issued := s.Rec.IssuedIDs()[issuedB:]
+		rp := map[string]interface{}{"kind": "secret-ctx-cancel", "requester": who}
+		if ok {
+			if len(idsA) <= len(idsB) {
+				res.Violate("c06:cancel:credential-without-lease", fmt.Sprintf("client context cancelled during generation (%s token): the secret was returned but no lease record exists", who), rp)
+			}
+		} else {
+			for _, id := range issued {
+				if s.Rec.RevokedCount(id) == 0 {
+					res.Violate("c06:cancel:secret-not-revoked", fmt.Sprintf("client context cancelled during generation (%s token): the client got an error (%s) but fresh secret %s was not revoked at its backend", who, ErrText(resp, err), id), rp)
+				}
+			}
+			if extra := append(diffKeys(idsB, idsA), diffKeys(idxB, idxA)...); len(extra) > 0 {
+				res.Violate("c06:cancel:partial-lease-records", fmt.Sprintf("client context cancelled during generation (%s token): the client got an error but lease/index records remain: %v", who, extra), rp)
+			}
+		}
+		if msg := trackingInvariant(s); msg != "" {
+			res.Violate("c06:cancel:tracking", fmt.Sprintf("client context cancelled during generation (%s token): %s", who, msg), rp)
+		}
+		res.Distinct("nontrivial", fmt.Sprintf("X|%s|ok=%v|issued=%d", who, ok, len(issued)))
+		s.Close()
+	}
+}
+
 func TestVerifC06(t *testing.T) {
 	res := vout.New("C06", "core")
 	defer func() {
@@ -272,6 +328,9 @@ func TestVerifC06(t *testing.T) {
 	}
 	for _, nonTxn := range storages {
 		img, tok := c06Image(t, nonTxn)
+		if i, _ := vout.Shard(); i == 0 && only == "" {
+			c06PartX(t, res, img, tok)
+		}
 		for _, kind := range c06Kinds() {
 			if only != "" && only != kind.Name {
 				continue
